@@ -2,12 +2,63 @@
 """Regenerates MANIFEST.json from the table below (keeps the manifest valid while rules land)."""
 import json, sys
 
-CLAIMED = {
- # id: (rules, technique, text, note)
- "C06": ("R1", "interprocedural must-pass-through (fsync-after-last-write) dataflow on SSA with option pruning",
-   "Decides, for every path of Log.Sync / Publish under AutoSync / Close, the roll-over, the rewrite, recover and migrate functions, that the log (and where nothing re-derives it, the index) file is fsynced after its last write before the call acknowledges or the file is renamed in. A necessary structural condition of C06 that no test can observe; not a proof of recovery.",
-   "Type-level file tokens (one abstract message.Writer / index.Writer file); (*os.File).Sync is the durability point; directory fsync excluded as in the property's fault model."),
+TECH = {
+ "R1": "interprocedural must-pass-through (fsync after last write) dataflow on SSA with option pruning",
+ "R2": "dominance/ordering queries over file-system effect tokens with path provenance",
+ "R3": "flow-sensitive must-hold lockset with entry locksets propagated over the VTA call graph",
+ "R4": "lock acquisition graph (held x may-acquire) cycle and re-acquisition check",
+ "R5": "refcount protocol: lockset + dominance checks around the in-use counter",
+ "R6": "interprocedural error-atom flow with branch refinement at identity comparisons",
+ "R7": "error wrap-closure tables, escape analysis of sentinels, guard dominance under option pruning",
+ "R8": "dominance of byte-equality tests over uses of hash candidates; loop direction; paired-growth path check",
+ "R9": "affine byte-layout extraction from encoder/decoder SSA compared with a documented layout table",
+ "R10": "taint/dominance checks in record decoders; path-sensitive short-read flow; may-return-empty summaries",
+ "R11": "path enumeration over copy/scan loops in SSA (exactly-once accounting, index derivation, loop exits)",
+ "R12": "call-graph reachability of file mutators under option pruning with path provenance",
+ "R13": "constant analysis of segment/temp file name formats and their parser",
+ "R14": "channel-token typestate dataflow and must-pass-through checks on the notifier and its wrappers",
+ "R15": "pruned-CFG reachability around directory-lock acquisition and deferred release",
+ "R16": "ErrNotExist tolerance / index-ensured dominance for every consumer of an index path",
+ "R17": "data-flow provenance of assigned offsets and new segment names from the atomic next offset",
+ "R18": "dominance of the snapshot re-validation over destructive calls, with lockset",
+ "R19": "exhaustiveness of version switches over the syntax tree with type information",
+ "R20": "lockset at reader-user and closer call sites (readers cannot hold a segment across its close)",
+ "R21": "bounded-scan check: head segment file scans outside the writer lock are bounded by a size captured under it",
 }
+
+TEXT = {
+ "C01": "Decides that every record a rewrite/recover/migrate loop reads is written unchanged or (delete only) reported, never dropped, duplicated or altered, that its index item is derived from the same record at the right position, that record bytes are laid out and read back per the documented layout, that segment names sort numerically and temp files are never adopted, and that a replacement segment is in place before the original is removed. Necessary structural conditions of content fidelity on every path; not an equality-with-reference proof.",
+ "C02": "Decides that the encoded offset is always base+i with base loaded from the head's atomic next offset under the writer lock, that the atomic is only stored from last.Offset+1, that an emptied head's successor exists before the head is removed, and that a new segment is only ever named 0 or after the live next offset. Necessary for dense, never-reused offsets; the value-level histories are not decided.",
+ "C03": "Decides that the identity-compared sentinels implementing the segment hand-off of Consume (after-end -> next segment, empty/exhausted head -> caught up) arrive unwrapped and are still produced. The searches and cursor arithmetic are value-level and not decided.",
+ "C04": "Decides the error taxonomy: every sentinel classifies under ErrNotFound/ErrInvalidOffset as documented, nothing internal escapes from any Log method, and the after-end -> not-found mapping still sees its sentinel. 'iff live' and agreement with Consume are value-level and not decided.",
+ "C05": "Decides the order of file-system steps in Override, Migrate, the rebase and empty-head paths, stale deterministic temp files, recover-loop exits, torn-header classification and fsync-before-rename. A necessary part of crash consistency; the protocol as a whole over all crash points is not decided.",
+ "C06": "Decides, for every path of Log.Sync / Publish under AutoSync / Close, the roll-over, and the rewrite, recover and migrate functions, that the log (and where nothing re-derives it, the index) file is fsynced after its last write before the call acknowledges or the file is renamed in. A necessary structural condition that no test can observe; not a proof of recovery.",
+ "C07": "Decides that decoders reject before returning (CRC, trailer, bounded sizes), classify a torn header and all their failure sentinels as corruption, that the Recover/Check/reindex scans derive each index item from the record just read and leave their loops only at EOF/corruption/error, and that a missing index is tolerated. 'Longest valid prefix' and byte-for-byte no-op are not decided.",
+ "C08": "Decides race-freedom structurally (a common exclusively-held lock for every write/access pair of every shared mutable field, including the writers' file state), an acyclic lock order without re-acquisition, the unload refcount protocol, re-validation of a head rewrite snapshot, reader lifetime versus close, and bounded head scans. Linearizability of results is not decided.",
+ "C09": "Decides that a hash hit is returned/collected only after a byte comparison with the caller's own key, that key tree and item list grow together, that first-hit loops run newest-first, that the hash is FNV-1a of the key on every path, and that the segment walk's sentinel and the ErrNoIndex guard are intact. Ascending-order facts and cursor arithmetic are not decided.",
+ "C10": "Decides that the before-start/after-end sentinels driving the time walk arrive unwrapped, are alive and never escape, and the ErrNoIndex guard. Which message is found is value-level and not decided (very narrow claim).",
+ "C11": "Decides that every consumer of an index file tolerates its absence or runs where it is ensured, that log replacement removes/rewrites the index in a safe order from the new file's positions, that writer and reader of the item layouts agree, and that whole-index writes are fsynced. Item-by-item equality over histories is not decided.",
+ "C12": "Decides that in the rewrite loop deleted and kept partition the records read (deleted only under membership in the caller's set), that relative offsets are rejected and the empty set is a no-op before any lock, that a head snapshot is re-validated before it replaces the head, and that errSegmentChanged still reaches its comparison. Size arithmetic and the multi-pass driver are not decided.",
+ "C13": "Decides encoder = decoder = documented layout for V1/V2 records, file headers and the four index item layouts, CRC table and coverage, Size(), key hash, and exhaustive version switches. Stat over histories is not decided.",
+ "C14": "Decides bounded allocation, CRC and trailer dominance over every success return of the decoders, torn-header classification, corruption classification of all decoder failures, and that a possibly-empty read result is never indexed. That other segments keep answering is not decided.",
+ "C17": "Decides that each version has an agreeing encoder/decoder, version switches are exhaustive, the migrate loop copies every record and indexes destination positions, and migration runs in a safe order with the temp file fsynced. Which version a segment ends up in is not decided.",
+ "C18": "Decides publish-then-set and wait-before-consume in both blocking wrappers, the notifier's channel-token discipline, the probe under the token, and the broadcast (monotone store, close received channel, install a fresh one). That a waiter stays parked and what a woken call returns are not decided.",
+ "C19": "Decides lock mode per Readonly with release on failed Open and in Close, that Publish/Delete reject with ErrReadonly before any effect, and that no log-file mutator is reachable in read-only mode or from any query method. flock(2) semantics and answer equivalence are not decided.",
+ "C20": "Decides the clause 'leaving the source unchanged': no source-side log-file mutator is reachable from Log.Backup / klevdb.Backup. That the copy opens to the same log is run-time and not decided.",
+}
+
+NOTE = "Type-level tokens (one abstract instance per lock field / writer type); standard-library and third-party effects as tabulated in /verif/lint; objects under construction are not shared."
+
+def claimed():
+    import subprocess, json as _j
+    out = subprocess.run(["/verif/bin/klevlint", "-verif", "/verif", "-describe"], capture_output=True, text=True, check=True).stdout
+    m = _j.loads(out)
+    return {pid: rules for pid, rules in m.items() if pid in TEXT}
+
+CLAIMED = {}
+for pid, rules in claimed().items():
+    tech = "; ".join(TECH[r] for r in rules)
+    CLAIMED[pid] = (", ".join(rules), tech, TEXT[pid], NOTE)
 
 NOT_YET = "no sound structural rule built yet for this property in this revision of the checker (see DESIGN.md section 5); will be claimed when its rules land"
 NA = {
